@@ -23,6 +23,18 @@ def gen(tier, seed):
     meta['k0'] = 'mutant'
     texts['k1'] = '[{"type":"fixed","name":"F","size":1},{"type":"record","name":"R","namespace":"ns","fields":[{"name":"b","type":".F"}]}]'
     meta['k1'] = 'valid'
+    # field names and aliases share one lookup table in the parser: duplicate names around aliases, directly and nested
+    fld = lambda name, aliases=None: dict({'name': name, 'type': 'int'}, **({'aliases': aliases} if aliases is not None else {}))
+    shapes = [
+        [fld('id'), fld('key', ['id']), fld('id')], [fld('id'), fld('id', ['key'])], [fld('key', ['id']), fld('x'), fld('key')],
+        [fld('id'), fld('a', ['id']), fld('b', ['id']), fld('id')], [fld('id', ['id2']), fld('k', ['id2', 'id']), fld('id')],
+        [fld('a'), fld('b', ['a']), fld('c', ['b']), fld('b')], [fld('a', ['a']), fld('a')],
+    ]
+    for q, fs in enumerate(shapes):
+        rec = {'type': 'record', 'name': 'Dup%d' % q, 'fields': fs}
+        texts['ka%d' % q] = json.dumps(rec); meta['ka%d' % q] = 'mutant'
+        texts['kb%d' % q] = json.dumps({'type': 'record', 'name': 'Outer', 'fields': [{'name': 'o', 'type': {'type': 'array', 'items': rec}}]})
+        meta['kb%d' % q] = 'mutant'
     for i in range(n):
         r = rng.fork(i)
         js = schematext.gen_schema_json(r, max_depth=r.choice([1, 2, 2, 3]), weird=False)
@@ -60,6 +72,24 @@ def defined_names(s, out):
         defined_names(s[3], out)
     elif t in ('uuid', 'duration'):
         defined_names(s[1], out)
+    return out
+
+def dup_fields(s, out):
+    """records of a schema term in which two fields have the same name"""
+    if isinstance(s, str):
+        return out
+    t = tag(s)
+    if t == 'record':
+        names = [f[1] for f in s[4][1:]]
+        if len(set(names)) != len(names):
+            out.append(unhx(s[1][2]).decode())
+        for f in s[4][1:]:
+            dup_fields(f[5], out)
+    elif t in ('array', 'map'):
+        dup_fields(s[1], out)
+    elif t == 'union':
+        for b in s[1:]:
+            dup_fields(b, out)
     return out
 
 def strip_defaults(js):
@@ -111,6 +141,9 @@ def judge(run, texts, meta, parsed, rt, model):
                 for name, x in (('serialise', r[2]), ('canonical-form', r[4]), ('debug', r[5]), ('resolve-names', r[6])):
                     if not isinstance(x, str) and tag(x) == 'panic':
                         run.fail('operation-panic', '%s panicked on an accepted schema' % name, case)
+                df = dup_fields(res[1], [])
+                if df:
+                    run.fail('duplicate-field-accepted', 'record(s) %s of an accepted schema have two fields of one name' % df[:3], case)
                 names = defined_names(res[1], [])
                 dups = sorted({n for n in names if names.count(n) > 1})
                 if dups:
